@@ -214,9 +214,15 @@ example : udpCase true ci4 ip4 (mkCall 0x72fe1d13 100000 2 3) ⟨0x72fe1d13, 2, 
 example : udpCase false ci6 ip6 (mkCall 0x72fe1d13 100000 3 3) ⟨0x72fe1d13, 2, 100000, 3, 3⟩
     "72fe1d13000000010000000000000000000000000000000000000011323030313a6462383a3a312e302e313131000000" = true := by
   decide +kernel
--- DUMP v4 over IPv4: three rpcb entries, netid "tcp"
+-- DUMP v4 over IPv4: three rpcb entries, netid "tcp", universal address "192.0.0.1.0.111", owner = the
+-- generated owner string (Gen/Texts.lean) as XDR string (length, bytes, padding)
 example : udpCase true ci4 ip4 (mkCall 0x72fe1d13 100000 4 4) ⟨0x72fe1d13, 2, 100000, 4, 4⟩
-    "72fe1d13000000010000000000000000000000000000000000000001000186a00000000200000003746370000000000f3139322e302e302e312e302e313131000000000973757065727573657200000000000001000186a00000000300000003746370000000000f3139322e302e302e312e302e313131000000000973757065727573657200000000000001000186a00000000400000003746370000000000f3139322e302e302e312e302e313131000000000973757065727573657200000000000000" = true := by
+    ("72fe1d13000000010000000000000000000000000000000000000001000186a00000000200000003746370000000000f3139322e302e302e312e302e31313100"
+      ++ hexOf (xdrString Gen.rpcOwner) ++
+     "00000001000186a00000000300000003746370000000000f3139322e302e302e312e302e31313100"
+      ++ hexOf (xdrString Gen.rpcOwner) ++
+     "00000001000186a00000000400000003746370000000000f3139322e302e302e312e302e31313100"
+      ++ hexOf (xdrString Gen.rpcOwner) ++ "00000000") = true := by
   decide +kernel
 -- DUMP v2 over IPv6: three pmap entries (protocol 6, port 111)
 example : udpCase true ci6 ip6 (mkCall 0x72fe1d13 100000 2 4) ⟨0x72fe1d13, 2, 100000, 2, 4⟩
